@@ -394,6 +394,67 @@ def full_stack_case(tid, writer, npre, ndeliver, nduring, nafter, cuts):
     return rec
 
 
+def early_open_case(tid, writer, nlate):
+    """Subchannels asked for before there is a connection, on the whole stack: `writer`'s application calls connect() right
+    after dilate() (the OPEN waits for the first connection) and, from its when_dilated() callback, `nlate` more times.  Each
+    subchannel's protocol writes its own tag when connected.  The reader's application must see the subchannels - and their
+    data - in the order the connect() calls were issued."""
+    from .dil_full import FullWorld
+    from twisted.internet import protocol as tproto
+    fw = FullWorld(variant=tid)
+    fw.units_first = bool(tid % 2)
+    reader = "F" if writer == "L" else "L"
+    got, errors = [], []
+
+    class R(tproto.Protocol):
+        def dataReceived(self, data):
+            got.append(bytes(data).decode())
+
+    class W(tproto.Protocol):
+        def connectionMade(self):
+            self.transport.write(self.tag.encode())
+
+    def wfac(tag):
+        f = tproto.Factory()
+        f.buildProtocol = lambda addr: type("W_" + tag, (W,), {"tag": tag})()
+        return f
+    issued = []
+
+    def connect(tag):
+        issued.append(tag)
+        d = fw.api[writer].connector_for("p").connect(wfac(tag))
+        d.addErrback(lambda f: errors.append("connect %s: %r" % (tag, f.value)))
+    fw.do(("AppDilate", "L", 0))
+    fw.do(("AppDilate", "F", 0))
+    try:
+        rf = tproto.Factory()
+        rf.buildProtocol = lambda addr: R()
+        fw.api[reader].listener_for("p").listen(rf)
+        # (the application may ask to be told when the wormhole is dilated before or after it issues its first connect())
+        def more(_):
+            for k in range(nlate):
+                connect("t%d" % (k + 1))
+        if tid % 2:
+            connect("t0")
+            d = fw.api[writer].when_dilated()
+            d.addCallback(more)
+        else:
+            d = fw.api[writer].when_dilated()
+            d.addCallback(more)
+            connect("t0")
+        d.addErrback(lambda f: errors.append("when_dilated: %r" % (f.value,)))
+    except Exception as e:
+        errors.append("setup: %r" % (e,))
+    rested = fw.run_out()
+    internal = errors + fw.finish()
+    idx = {t: i for i, t in enumerate(issued)}
+    delivered = [idx.get(g, -1) for g in got]
+    return {"tid": tid, "kind": "l4", "issued": list(range(len(issued))), "delivered": delivered, "goal": bool(rested) and len(issued) == nlate + 1,
+            "internal": [x for x in internal if "NoTransition" not in x or "stopped" not in x],
+            "ends": {}, "pendingUnexpected": 0, "scids": {"L": [], "F": []}, "afterCloseOK": True,
+            "lateListen": False, "perSub": {"issued": [], "delivered": []}, "echoes": [], "echoErrors": [], "closedByOpener": 0, "lostAtOpener": 0}
+
+
 def full_stack_sub_case(tid, opener, nsubs, offline, close, listen_late, units_first=False):
     """C13 on the whole stack: two real dilating wormholes; `opener`'s application opens nsubs subchannels, writes two pieces on
     each and (close) closes them - while connected, or (offline) after the network has cut the link in use, so that OPEN, DATA
@@ -1203,6 +1264,14 @@ def run(prop, tier):
                     records.append(rec)
                     meta[tid] = {"schedule": [["full-stack", writer, npre, ndeliver, nduring, nafter, cuts]], "direction": writer,
                                  "real_l2": True, "late_listen": None}
+            for writer in ("L", "F"):
+                for nlate in (1, 2, 1, 2):
+                    tid += 1
+                    n += 1
+                    rec = early_open_case(tid, writer, nlate)
+                    rec["origin"], rec["config"] = "family:full-stack-early-open", "full"
+                    records.append(rec)
+                    meta[tid] = {"schedule": [["early-open", writer, nlate]], "direction": writer, "real_l2": True, "late_listen": None}
             cov["full_stack_cases"] = n
         if prop == "C10":
             cov["echo"] = {"runs_with_answers": sum(1 for r_ in records if any(x["got"] for x in r_.get("echoes", []))),
